@@ -112,6 +112,18 @@ def start_dates(draw, span_h):
 
 
 @st.composite
+def input_dtypes(draw, spec):
+    """variable dtype of an in-memory writer input; adjusts the payload so
+    that an integer dtype holds integers"""
+    vd = draw(st.sampled_from(['f4', 'f4', 'f8', 'f8', '>f4', 'i4']))
+    if vd == 'i4':
+        spec['payload'] = {'mode': 'ramp', 'seed': spec['payload']['seed'],
+                           'over': []}
+    spec['vdtype'] = vd
+    return vd
+
+
+@st.composite
 def payloads(draw):
     mode = draw(st.sampled_from(['ramp', 'bits', 'bits', 'special']))
     seed = draw(st.integers(0, 2 ** 32 - 1))
@@ -680,6 +692,27 @@ def native(a):
     return be_bits(a).astype('<u4').view('<f4')
 
 
+VDTYPES = {'f4': ('f', '<f4'), 'f8': ('d', '<f8'), '>f4': ('>f4', '>f4'),
+           'i4': ('i', '<i4')}
+
+
+def as_vdtype(spec, arr32):
+    """the model's float32 values held in the variable dtype of the in-memory
+    input (spec['vdtype']: f4 default, f8, big-endian f4, i4).  Every value is
+    exactly representable in float32 by construction (i4 is only drawn with
+    the integer-valued ramp payload), so the expected on-disk payload is
+    unchanged."""
+    code, dt = VDTYPES[spec.get('vdtype', 'f4')]
+    a = native(arr32)
+    if dt == '<f4':
+        return a
+    out = a.astype(dt)
+    if not np.array_equal(out.astype('<f4').view('<u4'), a.view('<u4')):
+        from .core import HarnessError
+        raise HarnessError('payload is not exactly representable as %s' % dt)
+    return out
+
+
 def build_lib(spec, route='pnc', with_etflag=False):
     """in-memory library file holding the model's content, carrying the
     metadata the writer of spec['fmt'] documents/uses.
@@ -698,8 +731,9 @@ def build_lib(spec, route='pnc', with_etflag=False):
         f.createDimension('COL', spec['nx'])
         f._newstyle = spec['newstyle']
         for name, dims in lay:
-            v = f.createVariable(name, 'f', dims)
-            v[...] = native(m.vars[name][1])
+            v = f.createVariable(name, VDTYPES[spec.get('vdtype', 'f4')][0],
+                                 dims)
+            v[...] = as_vdtype(spec, m.vars[name][1])
             v.units = 'Fraction' if 'LANDUSE' in dims else ''
             v.long_name = name.ljust(16)
             v.var_desc = name.ljust(16)
@@ -711,7 +745,7 @@ def build_lib(spec, route='pnc', with_etflag=False):
         arrs = OrderedDict()
         arrs['TFLAG'] = tflag
         for name, dims in lay:
-            arrs[name] = native(m.vars[name][1])
+            arrs[name] = as_vdtype(spec, m.vars[name][1])
         f = ioapi_base.from_arrays(
             fileattrs=dict(SDATE=int(m.tflag[0, 0]), STIME=int(m.tflag[0, 1]),
                            TSTEP=spec['step_h'] * 10000), **arrs)
@@ -741,8 +775,9 @@ def build_lib(spec, route='pnc', with_etflag=False):
             v.long_name = 'ETFLAG'.ljust(16)
             v.var_desc = 'ETFLAG'.ljust(80)
         for name, dims in lay:
-            v = f.createVariable(name, 'f', dims)
-            v[...] = native(m.vars[name][1])
+            v = f.createVariable(name, VDTYPES[spec.get('vdtype', 'f4')][0],
+                                 dims)
+            v[...] = as_vdtype(spec, m.vars[name][1])
             v.units = 'ppm'
             v.long_name = name.ljust(16)
             v.var_desc = name.ljust(80)
